@@ -1772,3 +1772,74 @@ Proof.
   - rewrite map_length. lia.
   - lia.
 Qed.
+
+(* ------------------------------------------------------------------ *)
+(** * Histories with rejected updates *)
+
+(** an update of the wrong length is rejected (ValueError); a rejected update changes nothing *)
+Lemma update_rejected bias_sd noise bias_walk sm_sd m x st :
+  build bias_sd noise bias_walk sm_sd = Some m ->
+  (update m x st = None <-> List.length x <> n_states m) /\
+  (List.length x <> n_states m -> update_or_keep m st x = st).
+Proof.
+  intro Hb. unfold update_or_keep. rewrite (update_spec _ _ _ _ _ _ _ Hb).
+  destruct (Nat.eqb (List.length x) (n_states m)) eqn:E.
+  - apply Nat.eqb_eq in E. split; [split; [discriminate|contradiction]|contradiction].
+  - apply Nat.eqb_neq in E. split; [split; [intros _; exact E|reflexivity]|reflexivity].
+Qed.
+
+(** a history of calls, some of them rejected and caught, equals the history of the accepted
+    calls alone *)
+Lemma run_history_accepted bias_sd noise bias_walk sm_sd m xs st :
+  build bias_sd noise bias_walk sm_sd = Some m ->
+  updates m (accepted m xs) st = Some (run_history m xs st).
+Proof.
+  intro Hb. revert st. induction xs as [|x xs IH]; intro st; [reflexivity|].
+  unfold run_history, accepted in *. cbn [fold_left filter]. unfold update_or_keep at 2.
+  rewrite (update_spec _ _ _ _ _ _ _ Hb).
+  destruct (Nat.eqb (List.length x) (n_states m)) eqn:E.
+  - cbn [updates]. rewrite (update_spec _ _ _ _ _ _ _ Hb), E. apply IH.
+  - apply IH.
+Qed.
+
+(** ... hence the estimates after any such history (from reset) are the sum of the accepted
+    vectors, and equal ONE update with that sum *)
+Lemma history_accumulates bias_sd noise bias_walk sm_sd m xs :
+  build bias_sd noise bias_walk sm_sd = Some m ->
+  get_estimates m (run_history m xs reset) = Some (vsum (n_states m) (accepted m xs)) /\
+  update m (vsum (n_states m) (accepted m xs)) reset = Some (run_history m xs reset).
+Proof.
+  intro Hb. pose proof (run_history_accepted _ _ _ _ _ xs reset Hb) as Hu.
+  split; [exact (get_after_update _ _ _ _ _ _ _ Hb Hu)|].
+  unfold vsum. remember (accepted m xs) as ys eqn:Ey.
+  assert (Hlen : Forall (fun x => List.length x = n_states m) ys).
+  { subst ys. unfold accepted. apply Forall_forall. intros x Hx. apply filter_In in Hx.
+    now apply Nat.eqb_eq. }
+  clear Ey. remember (run_history m xs reset) as fin eqn:Ef. clear Ef xs.
+  (* generalise: from any state reached by one update with g *)
+  assert (Gen : forall ys g st fin', List.length g = n_states m ->
+            Forall (fun x => List.length x = n_states m) ys ->
+            update m g reset = Some st -> updates m ys st = Some fin' ->
+            update m (fold_left vadd ys g) reset = Some fin').
+  { clear ys Hlen Hu fin. induction ys as [|y ys IH]; intros g st fin' Hg Hf Hst Hrun.
+    - cbn in *. congruence.
+    - inversion Hf as [|? ? Hy Hf']; subst. cbn [updates] in Hrun. cbn [fold_left].
+      destruct (update m y st) as [st1|] eqn:E1; [|discriminate].
+      apply (IH (vadd g y) st1 fin'); auto.
+      + rewrite vadd_length; lia.
+      + exact (accumulate _ _ _ _ _ _ _ _ _ _ Hb Hst E1). }
+  apply (Gen ys (repeat 0 (n_states m)) reset fin); auto.
+  - apply repeat_length.
+  - rewrite (update_spec _ _ _ _ _ _ _ Hb), repeat_length, Nat.eqb_refl. f_equal.
+    destruct (targets_length _ _ _ _ _ Hb) as [Hl _]. rewrite <- Hl.
+    clear. generalize (targets bias_sd sm_sd) as ts. intro ts. generalize reset as st.
+    induction ts as [|t ts IH]; intro st; [reflexivity|].
+    cbn [List.length repeat]. rewrite add_all_cons. rewrite IH.
+    destruct t as [a|o i], st as [T b]; cbn [add_target e_T e_b]; f_equal.
+    + rewrite <- (upd3_ext a (fun y => y) (fun y => y + 0)) by (intro; ring).
+      destruct a as [|[|a]], b; reflexivity.
+    + unfold upd33. rewrite <- (upd3_ext o (fun r => r) (upd3 i (fun y => y + 0))).
+      * destruct o as [|[|o]], T; reflexivity.
+      * intro r. rewrite <- (upd3_ext i (fun y => y) (fun y => y + 0)) by (intro; ring).
+        destruct i as [|[|i]], r; reflexivity.
+Qed.
